@@ -8,6 +8,7 @@ import AnyTLS.Drv.Push
 import AnyTLS.Drv.Open
 import AnyTLS.Drv.Pool
 import AnyTLS.Drv.Hb
+import AnyTLS.Drv.Socks
 
 open AnyTLS.Drv
 
@@ -108,6 +109,7 @@ def dispatch (st : DrvState) (line : String) : DrvState × String :=
   | "open" :: rest => openLine st rest
   | "pool" :: rest => poolLine st rest
   | "hb" :: rest => (st, hbOp rest)
+  | "socks" :: rest => (st, socksOp rest)
   | "e2e" :: rest => (st, e2eLine rest)
   | "dest" :: rest => (st, destOp rest)
   | "dns" :: rest => let (c, o) := dnsOp st.dns rest; ({ st with dns := c }, o)
